@@ -10,6 +10,7 @@ the format in which the same input assembly is supplied.
 
 from __future__ import annotations
 
+import inspect
 import copy
 import os
 import random
@@ -196,29 +197,47 @@ class Ctx:
             args += ["--log-level", wl["log_level"]]
         return args
 
+    def forked(self, fn, name):
+        """fn() as one simulated process that is a real (forked) one: it starts
+        from this interpreter's state and takes what it did to module globals,
+        memo tables and the logging tree with it when it ends.  The counters
+        the child advanced are taken over."""
+        def body():
+            val = fn()
+            return val, self.nout, self.evals
+
+        proc = self.world.run_forked(body, name=name)
+        kind, val = proc.outcome
+        if kind != "returned":
+            raise RuntimeError(f"simulated process {name!r} ended with {kind}: {val}")
+        out, self.nout, self.evals = val
+        return out
+
     def run_inproc(self, cli, args, prog, cwd=None, end=True):
         w = self.world
-        box = {}
 
         def body():
             old = os.getcwd()
             if cwd:
                 os.chdir(cwd)
             try:
-                box["r"] = clirun.invoke(cli, args, prog=prog)
+                r = clirun.invoke(cli, args, prog=prog)
             finally:
                 os.chdir(old)
             if end:
                 clirun.end_of_process()
+            if r.exc is not None:
+                r.exc = repr(r.exc)
+            return r
 
         start = len(w.trace)
         if self.nested:
-            body()  # part of a longer-lived simulated process (in-process history)
+            r = body()  # part of a longer-lived simulated process (in-process history)
         else:
-            w.run_solo(body, name=prog, collect=end)
+            r = self.forked(body, prog)
         self.evals += 1
         w.advance(1)
-        return box["r"], w.trace[start:]
+        return r, w.trace[start:]
 
     def run_p2a(self, key, fmt=None, asm=None, cwd=None, end=True, mode="normal", reuse_out=None):
         outd = reuse_out or self.new_out()
@@ -404,15 +423,15 @@ class Ctx:
             # (with buffer 1 the indexer flushes after every line, with the seeded
             # size somewhere inside the records)
             self._drop_cache("w1")
-            d1 = index_mod.FastaIndex.__init__.__defaults__
-            d2 = index_mod.index_fasta_file.__defaults__
-            index_mod.FastaIndex.__init__.__defaults__ = (b,)
-            index_mod.index_fasta_file.__defaults__ = (b,)
+            d1 = inspect.unwrap(index_mod.FastaIndex.__init__).__defaults__
+            d2 = inspect.unwrap(index_mod.index_fasta_file).__defaults__
+            inspect.unwrap(index_mod.FastaIndex.__init__).__defaults__ = (b,)
+            inspect.unwrap(index_mod.index_fasta_file).__defaults__ = (b,)
             try:
                 got = self.run_p2a("w1")
             finally:
-                index_mod.FastaIndex.__init__.__defaults__ = d1
-                index_mod.index_fasta_file.__defaults__ = d2
+                inspect.unwrap(index_mod.FastaIndex.__init__).__defaults__ = d1
+                inspect.unwrap(index_mod.index_fasta_file).__defaults__ = d2
             if not self.compare("buffer", ref, got, f"stream buffer size {b} (cold cache) vs the default"):
                 return
             # the cache it wrote is now read back by a default-buffer run
@@ -577,6 +596,23 @@ class Ctx:
         oc.outd, oc.ind = outd, d
         return oc
 
+    def swap_inputs(self, src_key):
+        """The user replaces the files in w1's input directory by the content of
+        another workload (later mtime) and removes the index cache files."""
+        _d, asm, prt = self.staged["w1"]
+        wl = self.case[src_key]
+        with self.world.suspend():
+            Path(asm).write_text(wl["input"])
+            Path(prt).write_text(wl["pretext"])
+            for ext in (".fai", ".agp"):
+                if os.path.lexists(asm + ext):
+                    os.unlink(asm + ext)
+        self.world.advance(3)
+        for p in (asm, prt):
+            self.world.stamp_path(p)
+        self.world.advance(3)
+        self.world.probe("history_inputs_rewritten_in_place")
+
     def dim_history(self, ref):
         """Other invocations first, without the end-of-process clean-up in
         between, then the same inputs again; finally every earlier run's files
@@ -584,7 +620,13 @@ class Ctx:
         rng = random.Random(self.case["hist_seed"])
         done = []
         steps = rng.choice([["w2", "w1"], ["w2", "af", "w1"], ["w1", "w2", "w1"], ["af", "w2", "w2", "w1"], ["w2", "w1", "af", "w1"],
-                            ["af", "w1"], ["w2", "af", "w1"], ["w1", "w1"], ["w2", "w1", "w1"]])
+                            ["af", "w1"], ["w2", "af", "w1"], ["w1", "w1"], ["w2", "w1", "w1"],
+                            ["w2x", "w1"], ["w1", "w2x", "w1"], ["w2", "w2x", "af", "w1"]])
+        # "w2x": an invocation on w1's PATHS while they hold w2's content (the user then
+        # puts w1's content back, with a later mtime): possible when both are generated
+        # workloads of the same kind, i.e. use the same file names
+        if not (self.case["w1"]["kind"] == self.case["w2"]["kind"] != "specimen"):
+            steps = [("w2" if x == "w2x" else x) for x in steps]
         box = {"last": None, "first_w1": None}
         # (an immediately repeated command always goes over its own outputs)
         reuse_last = rng.random() < 0.5 or steps[-2:] == ["w1", "w1"]
@@ -602,6 +644,12 @@ class Ctx:
             self.nested = True
             try:
                 for k, st in enumerate(steps):
+                    if st == "w2x":
+                        self.swap_inputs("w2")
+                        oc = self.run_p2a("w1", end=False, mode=modes[k])
+                        self.swap_inputs("w1")
+                        done.append((st, oc))
+                        continue
                     if st == "af":
                         oc = self.run_asmformat("w2", afmt[k], end=False)
                         done.append((st, oc))
@@ -617,10 +665,12 @@ class Ctx:
                             if box["first_w1"] is None:
                                 box["first_w1"] = oc
                     done.append((st, oc))
+                clirun.end_of_process()  # the process ends: exit callbacks, logging shut down
             finally:
                 self.nested = False
+            return done, box
 
-        self.world.run_solo(whole_history, name="history")
+        done, box = self.forked(whole_history, "history")
         last = box["last"]
         ok = self.compare("history", ref, last, f"after the in-process invocations {list(zip(steps, modes))[:-1]} vs a fresh process")
         if ok:
@@ -674,10 +724,12 @@ class Ctx:
                 outd = self.new_out()
                 r, _t = self.run_inproc(self.af.cli, [os.path.join(d, "odd2.tpf"), "-o", os.path.join(outd, "z." + fmt)], "asm-format", end=False)
                 box["oc"] = Outcome(r.code, self.collect(outd, d), r.stderr)
+                clirun.end_of_process()
             finally:
                 self.nested = False
+            return box["oc"]
 
-        self.world.run_solo(seq, name="asm-format-sequence")
+        box["oc"] = self.forked(seq, "asm-format-sequence")
         outd = self.new_out()
         p = self.run_subprocess("asm_format", [os.path.join(d, "odd2.tpf"), "-o", os.path.join(outd, "z." + fmt)], self.case["seeds"][-1])
         alone = Outcome(p.returncode, self.collect(outd, d), p.stderr)
@@ -726,7 +778,18 @@ class Ctx:
             b = self.run_asmformat("w1", fmt, subprocess_seed=self.case["seeds"][-1])
             if not self.compare("asm_format", a, b, f"asm-format -> {fmt}: in-process vs fresh interpreter PYTHONHASHSEED={self.case['seeds'][-1]}"):
                 return
-            c = self.run_asmformat("w1", fmt, end=False)
+
+            def twice(fmt=fmt):
+                self.nested = True
+                try:
+                    self.run_asmformat("w1", fmt, end=False)
+                    c = self.run_asmformat("w1", fmt, end=False)
+                    clirun.end_of_process()
+                finally:
+                    self.nested = False
+                return c
+
+            c = self.forked(twice, "asm-format-twice")
             if not self.compare("asm_format", a, c, f"asm-format -> {fmt}: second in-process invocation"):
                 return
         clirun.end_of_process()
